@@ -7,7 +7,7 @@ from ..core import Part
 PROPERTY = "C02"
 RULE = ("enum: every +/-/0 pattern of length 1..9 (quick) / 1..12 (thorough) spelled with seed-chosen residues of each "
         "class (so the residue->class table is exercised, H neutral in particular); hyp: sequences of all composition "
-        "classes up to 120 (quick) / 500 (thorough) residues. About 8% of the random cases are long (129-400 residues), highly charged, regular sequences (homopolymers, diblocks, alternating, two-letter). Oracle: exact-rational mean over blob sizes 5,6 of the mean "
+        "classes up to 120 (quick) / 500 (thorough) residues. About 4% of the random cases are 501-760 residues long and about 8% are long (129-400 residues), highly charged, regular sequences (homopolymers, diblocks, alternating, two-letter). Oracle: exact-rational mean over blob sizes 5,6 of the mean "
         "squared deviation of blob sigma from sequence sigma (a blob longer than the sequence contributes 0), tolerance "
         "1e-9; N<5 => 0, N==5 => delta_5/2, uncharged => 0. Non-trivial: N>=5, charged residue present, reference delta>0; "
         "distinct by sequence.")
@@ -50,8 +50,12 @@ def enum_cases(tier, seed):
 
 @st.composite
 def hyp_case(draw, max_len):
-    if draw(st.integers(0, 11)) == 0:
+    r = draw(st.integers(0, 23))
+    if r <= 1:
         return {"seq": draw(gens.long_charged(129, 400)), "warm": []}
+    if r == 2:
+        n = draw(st.integers(501, 760))
+        return {"seq": draw(gens.exact_words(draw(st.sampled_from(["KRDEGSPQ", "KE", "KRDE" + ref.AA, ref.AA])), n)), "warm": []}
     warm = draw(gens.warmups())
     s = draw(gens.sequences(max_len=60 if warm else max_len))
     case = {"seq": s, "warm": warm}
